@@ -22,7 +22,7 @@ REQUIRED_COUNTERS = ["poisoned_calls", "ensemble_probe_screens", "argument_shado
 
 
 def plan(tier, seed):
-    return [{"shard": i, "reps": 25 if tier == "quick" else 800, "ensemble_N": (8 if i % 2 else 12) if tier == "quick" else (16 if i % 2 else 24)}
+    return [{"shard": i, "reps": 25 if tier == "quick" else 12000, "ensemble_N": (8 if i % 2 else 12) if tier == "quick" else (24 if i % 2 else 32)}
             for i in range(16)]
 
 
